@@ -41,6 +41,12 @@ D = {
  'C05_3': ('C05', 'ascii Parser::parse: justice_properties.push(Vec::with_capacity(justice_property_size))', 'a justice size line declaring a huge count: allocation / capacity overflow from a 31-byte input'),
  'C11_3': ('C11', 'write_all_defer_err_cold: write-through uses write() instead of write_all()', 'a slice >= capacity and a sink doing a short write or returning Interrupted'),
  'C02_3': ('C02', 'request_more: shrink guard buf.len() > valid_len + 4*chunk (was 4*(pos+valid+chunk))', 'large look-ahead, advance > 2 chunks, refill: truncate cuts live look-ahead, refilled with zeros'),
+ 'C07_3': ('C07 (also C01)', 'cnf comment: scans the already buffered slice for the newline instead of next_newline; end of buffer = end of comment', 'a comment line that crosses a read boundary: its tail is parsed as content'),
+ 'C08_3': ('C08', 'btor2 skip_whitespace: line bookkeeping once after the loop, line_start ends up after the indentation', 'an error on an indented line that follows a comment / blank line: column too small by the indentation'),
+ 'C13_3': ('C13', 'ascii_digits_cont_pos / cont_neg: early exit on overflow, offset stops inside the digit run', 'fast path (>= offset+8 bytes buffered), run of >= 8 digits, overflow before the last digit'),
+ 'C14_3': ('C14', 'DeferredReader::advance stores the wrapped valid_len before the overflow check panics (re-introduces D2)', 'advance(n > buffered) caught with catch_unwind, then any accessor'),
+ 'C06_4': ('C06', 'binary Header::parse: `limit -= latch_count` removed (and-gate count checked against M - I)', 'binary header with latches and M-I-L < A <= M-I'),
+ 'C01_3': ('C01', 'aiger fixed_not_eol peeks buf().get(offset) instead of requesting the byte after the keyword', "C > 0, a comment section, and a read ending exactly after its 'c'"),
  "C16_2": ("C16", "same change as C01_2 (newline CR look-ahead)", "read boundary between CR and LF"),
 }
 rows = []
